@@ -390,6 +390,8 @@ func runC05(c *Ctx, r *Report) {
 	importRules(c, r, "C04", []string{"R-C04.1", "R-C04.2"}, "R-C05.15")
 	r.Doc("R-C05.16", "the walk re-sorts its stack after every growth before it pops again (adopted from C03: with an order that rests on the order in which some writer listed an entry's links, a later merge that puts an unrelated entry on the stack swaps two entries of the earlier view)")
 	importRules(c, r, "C03", []string{"R-C03.2"}, "R-C05.16")
+	r.Doc("R-C05.17", "every addition to the skip references of the new entry is made under a test against its predecessors (adopted from C04: heads moved from the predecessor list to the references drop out of the view with the next append — the walk follows predecessors only)")
+	importRules(c, r, "C04", []string{"R-C04.12"}, "R-C05.17")
 	r.Doc("R-C05.11", "Entry.Copy builds the copy field by field (or replaces every reference-typed field of a struct copy on every path): the copy shares no map or clock with the original")
 	entryCopyFieldwise(c, r, "R-C05.11")
 	r.Doc("R-C05.9", "a copied entry shares no mutable map or clock object with its original: Copy stores a freshly made map and a fresh clock (the link-encrypting codec and the signer write into the copy's additional data)")
